@@ -98,6 +98,12 @@ def allbytes2_cfgs(tier):
 
 
 def shards(tier):
+    items = _shards(tier)
+    items[0] = dict(items[0], first_shard=1)
+    return items
+
+
+def _shards(tier):
     items = []
     for idxs in D.chunks(list(range(len(CFGS))), 32):
         items.append({"job": "roundtrip", "cfgs": idxs, "tier": tier})
@@ -206,8 +212,33 @@ def check_maxseg(rec, cfg, md_len, m):
             rec.violation(f"C07.maxseg/{entry}/pdu-of-returned-length-is-not-M-octets{feats}", case, (packed, ref_len), m)
 
 
+STATE_BY_MEANING = {"NO_START_NO_END": 0b00, "START_WITHOUT_END": 0b01, "END_WITHOUT_START": 0b10, "START_AND_END": 0b11}  # 727.0-B-5 table 5-14
+
+
+def check_state_names(rec):
+    """the enumeration members are named after the rows of the standard's table: each carries that row's code, and goes on the wire
+    as (code << 6 | length) - a symmetric exchange of two codes survives every round trip"""
+    fd = U.L
+    for name, code in STATE_BY_MEANING.items():
+        rec.case(True, ops=2)
+        case = {"kind": "state-name", "name": name}
+        member = getattr(fd.RecordContinuationState, name, None)
+        if member is None or int(member) != code:
+            rec.violation("C07.encode/RecordContinuationState/member-does-not-carry-the-code-of-its-row", case, None if member is None else int(member), code)
+            continue
+        cfg = dict(CFGS[1], segctrl=1)
+        pdu = fd.FileDataPdu(U.pdu_config(cfg), fd.FileDataParams(b"ab", 1, fd.SegmentMetadata(member, b"\x55")))
+        raw = bytes(pdu.pack())
+        ref = R.encode_pdu("FileDataPdu", cfg, {"offset": 1, "data": b"ab", "md": [code, b"\x55"]})
+        if raw != ref:
+            rec.violation("C07.encode/FileDataPdu.pack/octets/record-continuation-state-by-name", case, raw, ref)
+    rec.outcome("state-names-ok")
+
+
 def run_shard(item):
     rec = Rec(PROPERTY, item)
+    if item.get("first_shard"):
+        check_state_names(rec)
     tier = item["tier"]
     unit = U.UNITS["FileDataPdu"]
     if item["job"] == "roundtrip":
